@@ -24,61 +24,51 @@ Fixpoint tokenize (s : str) : list item :=
       else ILit c :: tokenize rest
   end.
 
-(** the code point encoded by the first 1-4 bytes, with the number of bytes used *)
-Definition decode_first (bs : list N) : option (cp * nat) :=
-  match bs with
-  | b0 :: t =>
+(** Greedy decoding of the item sequence, by look-ahead only (no state): at an escape, try
+    the shortest UTF-8 sequence that starts there - its bytes must all be escapes, adjacent
+    in the text; if the bytes seen so far are a proper prefix of a valid sequence keep
+    looking, if they complete one emit the character and continue after it, otherwise (an
+    invalid byte, a literal character, or the end of the text interrupts) the first escape
+    is kept verbatim and decoding resumes right after it.  [inl c]: a decoded character,
+    [inr raw]: text kept as written. *)
+Inductive piece := PDec (c : cp) | PRaw (raw : str) | PLit (c : cp).
+
+Fixpoint decode_pieces (l : list item) : list piece :=
+  match l with
+  | [] => []
+  | ILit c :: r => PLit c :: decode_pieces r
+  | IEsc b0 r0 :: t =>
       match u8classify [b0] with
-      | U8Complete c => Some (c, 1%nat)
-      | U8Invalid => None
+      | U8Complete c => PDec c :: decode_pieces t
+      | U8Invalid => PRaw r0 :: decode_pieces t
       | U8Prefix =>
           match t with
-          | b1 :: t1 =>
+          | IEsc b1 r1 :: t1 =>
               match u8classify [b0; b1] with
-              | U8Complete c => Some (c, 2%nat)
-              | U8Invalid => None
+              | U8Complete c => PDec c :: decode_pieces t1
+              | U8Invalid => PRaw r0 :: decode_pieces t
               | U8Prefix =>
                   match t1 with
-                  | b2 :: t2 =>
+                  | IEsc b2 r2 :: t2 =>
                       match u8classify [b0; b1; b2] with
-                      | U8Complete c => Some (c, 3%nat)
-                      | U8Invalid => None
+                      | U8Complete c => PDec c :: decode_pieces t2
+                      | U8Invalid => PRaw r0 :: decode_pieces t
                       | U8Prefix =>
                           match t2 with
-                          | b3 :: _ => match u8classify [b0; b1; b2; b3] with
-                                       | U8Complete c => Some (c, 4%nat)
-                                       | _ => None end
-                          | [] => None
+                          | IEsc b3 r3 :: t3 =>
+                              match u8classify [b0; b1; b2; b3] with
+                              | U8Complete c => PDec c :: decode_pieces t3
+                              | _ => PRaw r0 :: decode_pieces t
+                              end
+                          | _ => PRaw r0 :: decode_pieces t
                           end
                       end
-                  | [] => None
+                  | _ => PRaw r0 :: decode_pieces t
                   end
               end
-          | [] => None
+          | _ => PRaw r0 :: decode_pieces t
           end
       end
-  | [] => None
-  end.
-
-(** decoded characters (inl) and verbatim leftovers (inr) of a run of escapes *)
-Fixpoint decode_run (fuel : nat) (run : list (N * str)) : list (cp + str) :=
-  match fuel with
-  | O => []
-  | S f =>
-      match run with
-      | [] => []
-      | (b, raw) :: rest =>
-          match decode_first (map fst run) with
-          | Some (c, n) => inl c :: decode_run f (skipn n run)
-          | None => inr raw :: decode_run f rest
-          end
-      end
-  end.
-
-Fixpoint take_run (l : list item) : list (N * str) * list item :=
-  match l with
-  | IEsc b raw :: r => let '(run, rest) := take_run r in ((b, raw) :: run, rest)
-  | _ => ([], l)
   end.
 
 (** how a decoded character / a literal character is shown, per flavour of accessor *)
@@ -96,23 +86,10 @@ Variable fl : flavour.
 
 Definition show_decoded (c : cp) : str := if f_keep_escaped fl c then pct c else [c].
 Definition show_literal (c : cp) : str := if f_plus_is_space fl && (c =? 43) then [32] else [c].
+Definition show_piece (p : piece) : str :=
+  match p with PDec c => show_decoded c | PRaw raw => raw | PLit c => show_literal c end.
 
-Fixpoint decode_items (fuel : nat) (l : list item) : str :=
-  match fuel with
-  | O => []
-  | S f =>
-      match l with
-      | [] => []
-      | ILit c :: r => show_literal c ++ decode_items f r
-      | IEsc _ _ :: _ =>
-          let '(run, rest) := take_run l in
-          flat_map (fun x => match x with inl c => show_decoded c | inr raw => raw end)
-                   (decode_run (S (length run)) run)
-          ++ decode_items f rest
-      end
-  end.
-
-Definition pct_decode (s : str) : str := let l := tokenize s in decode_items (S (length l)) l.
+Definition pct_decode (s : str) : str := flat_map show_piece (decode_pieces (tokenize s)).
 
 End D.
 
